@@ -64,14 +64,11 @@ def dim0 : DimArg → Bool
   | .kw d => d == 0
 
 def goodIx : Ix → Bool
-  | .int _ => true
-  | .slice _ _ _ => true
-  | .list _ => true
-  | _ => false
+  | .ell => false
+  | _ => true
 
 def noEllMask : Ix → Bool
   | .ell => false
-  | .mask _ => false
   | _ => true
 
 /-- operation classes for which the dispatcher as written keeps results aligned, for every kind of value -/
@@ -79,8 +76,11 @@ def goodOp : TOp → Bool
   | .ew | .copy | .deepcopy | .pickle | .iter | .pick _ => true
   | .flip dims => dims.all (fun d => decide (1 ≤ d))
   | .roll _ d => decide (1 ≤ d)
-  | .getitem (.single ix) => goodIx ix
+  | .getitem (.single _) => true
   | .getitem (.tuple l) => l.all noEllMask
+  | .splitL _ d => dim0 d
+  | .splitWS _ d => dim0 d
+  | .narrowM d s _ => decide (0 ≤ d) && decide (0 ≤ s)
   | .cat _ d => dim0 d
   | .split _ d => dim0 d
   | .tsplitL _ d => dim0 d
@@ -245,19 +245,21 @@ theorem alignedV_ibResult_none (a0 : Nat) (data : Raw) : AlignedV a0 (ibResult d
   simp [ibResult, AlignedV, AlignedS]
 
 theorem alignedV_ffResult (a0 : Nat) (data : Raw) (gs : List GridTag) (a : Nat)
-    (h1 : gs.length = data.shape.headD 0) (h2 : data.prov = gs.map itemOf) (ha : a = a0) :
+    (h2 : data.prov = gs.map itemOf) (ha : a = a0) :
     AlignedV a0 (ffResult data (some gs) (some a)) := by
   unfold ffResult
   cases gs with
   | nil =>
     simp only []
     split
-    · exact alignedV_ofExcept_mkFlowFields a0 data [] a h1 h2 ha
+    · rename_i hc
+      exact alignedV_ofExcept_mkFlowFields a0 data [] a (by rw [hc.2]; rfl) h2 ha
     · exact alignedV_ibResult a0 data [] h2
   | cons g0 gs =>
     simp only []
     split
-    · exact alignedV_ofExcept_mkFlowFields a0 data (g0 :: gs) a h1 h2 ha
+    · rename_i hc
+      exact alignedV_ofExcept_mkFlowFields a0 data (g0 :: gs) a hc.2.1.symm h2 ha
     · exact alignedV_ibResult a0 data (g0 :: gs) h2
 
 theorem alignedV_imResult (a0 : Nat) (data : Raw) (g : GridTag)
